@@ -18,6 +18,7 @@ import (
 	"github.com/cosmos/cosmos-sdk/codec"
 	sdk "github.com/cosmos/cosmos-sdk/types"
 	banktypes "github.com/cosmos/cosmos-sdk/x/bank/types"
+	crisistypes "github.com/cosmos/cosmos-sdk/x/crisis/types"
 	stakingtypes "github.com/cosmos/cosmos-sdk/x/staking/types"
 	upgradetypes "github.com/cosmos/cosmos-sdk/x/upgrade/types"
 	aoltypes "github.com/medibloc/panacea-core/v2/x/aol/types"
@@ -328,6 +329,14 @@ func (e *twinEnv) mixedOps() []mixedOp {
 			}
 			return world.TxSpec{Msgs: []sdk.Msg{&didtypes.MsgCreateDIDRequest{Did: d5, Document: doc, VerificationMethodId: k.vmID(d5, 1), Signature: k.sign(doc, 0, 1), FromAddress: e.B.Bech}}, Signers: s(e.B), Fee: aolFee}
 		}},
+		// x/crisis: a user asks the chain to check a registered invariant (routes are wired at start-up: a restarted node
+		// must have the same ones as a node that never stopped)
+		{"VerifyInvariant(bank/total-supply)", func(w *world.World) world.TxSpec {
+			return world.TxSpec{Msgs: []sdk.Msg{crisistypes.NewMsgVerifyInvariant(e.A.Addr, "bank", "total-supply")}, Signers: s(e.A), Fee: aolFee, Gas: 3000000}
+		}},
+		{"VerifyInvariant(staking/module-accounts)", func(w *world.World) world.TxSpec {
+			return world.TxSpec{Msgs: []sdk.Msg{crisistypes.NewMsgVerifyInvariant(e.B.Addr, "staking", "module-accounts")}, Signers: s(e.B), Fee: aolFee, Gas: 3000000}
+		}},
 	}
 }
 
@@ -339,7 +348,7 @@ func (e *twinEnv) enumCount() int { return 18 }
 // on afterwards: leftovers of removed objects must not be treated differently by a node that restarted.
 func cleanupCases(e *twinEnv, shard, n int) []*histCase {
 	var out []*histCase
-	for i, blocks := range [][][]int{{{18}, {19}, {0, 2}}, {{18, 19}, {}, {8}}, {{4}, {18}, {19, 20}, {2}}, {{21}, {22, 21}}} {
+	for i, blocks := range [][][]int{{{18}, {19}, {0, 2}}, {{18, 19}, {}, {8}}, {{4}, {18}, {19, 20}, {2}}, {{21}, {22, 21}}, {{23}, {2, 24}, {23}}} {
 		if (i+9)%n != shard {
 			continue
 		}
